@@ -432,10 +432,11 @@ func genCases(a vh.Args, samples []Sample) []*tcase {
 		if veryExpensive(s.Type) && a.Tier != "thorough" && !a.Search {
 			// one decode costs 50-500 ms (Paillier secret keys, known-order groups): only the
 			// top-level fields null / dropped
+			// (a removed component is refused before the expensive arithmetic starts, so these are cheap)
 			refs := collect(&tree)
 			cnt := 0
 			for ri, x := range refs {
-				if x.role != 'v' || strings.Count(x.path, "/") > 1 || cnt >= 3 {
+				if x.role != 'v' || strings.Count(x.path, "/") > 4 || cnt >= 10 {
 					continue
 				}
 				cnt++
@@ -444,6 +445,26 @@ func genCases(a vh.Args, samples []Sample) []*tcase {
 				rr[ri].set(&node{kind: 's', n: 22})
 				m := mutation{Kind: "field-null", Path: x.path, Bytes: gencode(root)}
 				cases = append(cases, &tcase{class: "mut", sample: s, mut: m, stream: m.Bytes, sm: true})
+				root = tree.clone()
+				rr = collect(&root)
+				for _, y := range rr {
+					if y.x.kind != 'm' {
+						continue
+					}
+					dropped := false
+					for pi, pr := range y.x.pairs {
+						if pr[1] == rr[ri].x {
+							y.x.pairs = append(y.x.pairs[:pi:pi], y.x.pairs[pi+1:]...)
+							m := mutation{Kind: "field-drop", Path: x.path, Bytes: gencode(root)}
+							cases = append(cases, &tcase{class: "mut", sample: s, mut: m, stream: m.Bytes, sm: true})
+							dropped = true
+							break
+						}
+					}
+					if dropped {
+						break
+					}
+				}
 			}
 			continue
 		}
